@@ -391,14 +391,28 @@ FUNCS = {"wcall": f_wcall, "wtotal": f_wtotal, "wop": f_wop, "wlang": f_wlang, "
          "gcall": f_gcall, "truncate": f_truncate}
 
 
+_TIMEOUTS = [0]
+
+
 def event(fn, args, site=None, feat=None, timeout=30):
     call = {"fn": fn, "args": args}
     try:
+        if _TIMEOUTS[0] >= 3:
+            # this process has already recorded several calls that did not return (a change that makes the library
+            # hang): the remaining calls get a short budget so that the run ends and the time-outs are reported
+            timeout = min(timeout, 10)
         try:
             e = guarded(lambda: FUNCS[fn](args), timeout)
         except CallTimeout:
+            if _TIMEOUTS[0] >= 3:
+                raise
             # a slow machine must not look like a hanging library: one more attempt with four times the budget
-            e = guarded(lambda: FUNCS[fn](args), 4 * timeout)
+            try:
+                e = guarded(lambda: FUNCS[fn](args), 4 * timeout)
+            except CallTimeout:
+                if not (fn == "wop" and str(args.get("fn", "")).split(".")[0] in ("determinize", "min_det")):
+                    _TIMEOUTS[0] += 1      # (a diverging determinisation is out of domain, not a hang)
+                raise
     except OutOfModelRange:
         e = {"op": fn, "skip": "numeric-range"}      # (a weight beyond the model's number range: counted, not judged)
     except MachineryError:
